@@ -894,7 +894,7 @@ class SymbolTable():
             if not isinstance(symbol, Symbol):
                 raise TypeError(f"Arguments should be of type 'Symbol' but "
                                 f"found '{type(symbol).__name__}'.")
-            if symbol.name not in self._symbols:
+            if self._normalize(symbol.name) not in self._symbols:
                 raise KeyError(f"Symbol '{symbol.name}' is not in the symbol "
                                f"table.")
         if self._has_same_name(symbol1.name, symbol2.name):
